@@ -18,6 +18,7 @@ from dump import rat, unrat
 
 SIG_FIX = "method-fix_stress-raises"
 SIG_INV = "inversion-path-negative-multiplier"
+SIG_LSQLIN = "lsq_linear-singular-normal-equations"
 # tolerances on the certificate (relative to the scale of the system), per path — part of the check's specification
 EPS = {"inv": 1e-9, "nnls-fallback": 1e-9, "lsq": 1e-5, "lsq_linear": 1e-6}
 
@@ -48,6 +49,8 @@ def setup(case):
         d0 = (rng.normal(size=nj) + 1j * rng.normal(size=nj)) * case.get("noise", 0.0)
         series = statics.build_series(case, 2, disp=[d0, d0 + d1])
         f = statics.make_forsys(series, times=[0.0, case.get("dt", 1.0)])
+        if f.mesh.mapping[0] is None:
+            return None          # the generated frames are "too different" for the tracker: outside this property's inputs
         sc = series[0]
         sc.keep = series
     else:
@@ -84,6 +87,16 @@ def run_case(ck, case, reqs, pending):
         kw["b_matrix"] = "velocity"
     ck.count("method_" + str(method)); ck.count("rhs_" + case["rhs"]); ck.count("allow_negatives_" + str(an))
     ck.count("square_system" if A.shape[0] == A.shape[1] else "rectangular_system")
+    if method == "lsq_linear":
+        # domain of lsq_linear: consistent systems only — decided before the call (the equations and the sum row must have an
+        # exact non-negative solution without a multiplier)
+        nn = A.shape[1]
+        bb, _ = fm.set_velocity_matrix(sc.forsys.mesh, **{k: v for k, v in kw.items() if k != "method"})
+        b00 = np.round(np.array(bb, dtype=float).flatten(), 3)
+        z0, r0 = sco.nnls(np.vstack([A, np.ones((1, nn))]), np.concatenate([b00, [float(nn)]]), maxiter=50 * nn)
+        if r0 * r0 > 1e-12 * (1.0 + float(nn)) ** 2:
+            ck.count("lsq_linear_inconsistent_system_out_of_domain")
+            return sc
     try:
         impl.quiet(sc.forsys.solve_stress, when=0, **kw)
     except Exception as ex:
@@ -119,11 +132,20 @@ def run_case(ck, case, reqs, pending):
     scale = (1.0 + float(np.max(np.abs(bref)))) ** 2
     tol_obj = {"inv": 1e-9, "nnls-fallback": 1e-9, "lsq": 1e-6, "lsq_linear": 1e-8}[path] * scale * Mref.shape[0]
     consistent = opt <= 1e-12 * scale
-    if path == "lsq_linear" and not consistent:
-        # the property claims lsq_linear for consistent systems only
-        ck.count("lsq_linear_inconsistent_system_out_of_domain")
-        ck.case(case, nontrivial=False)
-        return sc
+    lsq_singular = False
+    if path == "lsq_linear":
+        svn = np.linalg.svd(Mp, compute_uv=False)
+        lsq_singular = A.shape[0] < A.shape[1] or svn[-1] < 1e-8 * svn[0]
+    if path == "lsq_linear":
+        # the property claims lsq_linear for consistent systems only: the force-balance equations together with the sum row
+        # must have an exact non-negative solution *without* the multiplier (lsq_linear's bordered normal equations contain
+        # no multiplier column on the equations; a zero residual reached only with lambda != 0 is not consistency)
+        M0 = np.vstack([A, np.ones((1, n))])
+        z0, r0 = sco.nnls(M0, bref, maxiter=50 * n)
+        if r0 * r0 > 1e-12 * scale:
+            ck.count("lsq_linear_inconsistent_system_out_of_domain")
+            ck.case(case, nontrivial=False)
+            return sc
     nonneg = bool(np.all(x >= 0))
     if path == "lsq_linear" and case["rhs"] == "velocity":
         # lsq_linear rounds A^T b (not b) to three decimals, so its system is not the augmented problem of the rounded
@@ -131,12 +153,13 @@ def run_case(ck, case, reqs, pending):
         zr, _ = sco.nnls(Mp, bp, maxiter=50 * Mp.shape[1])
         o_ref, o_got = float(np.sum((Mp @ zr - bp) ** 2)), float(np.sum((Mp @ z - bp) ** 2))
         if o_got > o_ref + 1e-8 * scale * Mp.shape[0]:
-            ck.fail("lsq_linear returns the non-negative optimum of its bordered normal equations", f"objective {o_got} reference {o_ref}", case)
+            ck.fail("lsq_linear returns the non-negative optimum of its bordered normal equations", f"objective {o_got} reference {o_ref}", case,
+                    signature=SIG_LSQLIN if lsq_singular else None)
         ck.count("lsq_linear_velocity_own_system")
     elif nonneg or path != "inv":
         if obj > opt + tol_obj:
             # finding KF3: the inversion path accepts a negative multiplier (only `xres[:-1]` is inspected)
-            sig = SIG_INV if (path == "inv" and z[-1] < 0) else None
+            sig = SIG_INV if (path == "inv" and z[-1] < 0) else (SIG_LSQLIN if lsq_singular else None)
             ck.fail("reported tensions with some non-negative multiplier minimise the augmented squared residual over non-negative candidates",
                     f"path {path}: objective {obj} reference optimum {opt} (raw multiplier {z[-1]})", case, signature=sig)
     if path == "inv" and z[-1] < -1e-9 * math.sqrt(scale) and nonneg and obj > opt + tol_obj:
@@ -163,7 +186,7 @@ def run_case(ck, case, reqs, pending):
     if consistent:
         tolm = {"inv": 1e-8, "nnls-fallback": 1e-8, "lsq": 1e-5, "lsq_linear": 1e-6}[path]
         if abs(float(np.mean(x)) - 1.0) > tolm:
-            ck.fail("for consistent systems the mean reported tension is one", f"mean {np.mean(x)}", case)
+            ck.fail("for consistent systems the mean reported tension is one", f"mean {np.mean(x)}", case, signature=SIG_LSQLIN if lsq_singular else None)
         ck.count("consistent_systems")
     # ------------------------------------------------------------------ K
     eps = EPS[path] * math.sqrt(scale) * Mp.shape[0]
